@@ -44,9 +44,16 @@ def check(ctx: Ctx) -> str:
     ctx.check("self._new_lines = max(self._new_lines, 1 + extra)" in s and "if node is not None and node.lineno != self._last_line:" in s and "self._write_debug_info = node.lineno" in s and "self._last_line = node.lineno" in s, "newline:marker", "compiler:CodeGenerator.newline", "marker set when the template line changes", "newline(node) must schedule a debug entry whenever the node's line differs from the last recorded one", nl.loc())
     gl = repo.func("environment:Template.get_corresponding_lineno")
     s = ast.unparse(gl.node)
-    ctx.check("for template_line, code_line in reversed(self.debug_info):" in s and "if code_line <= lineno:" in s and "return template_line" in s and astq.returns(gl.node)[-1].value is not None and ast.unparse(astq.returns(gl.node)[-1].value) == "1", "reader:lookup", "environment:Template.get_corresponding_lineno", "lookup", "the template line is that of the last entry whose generated line is <= the failing line (default 1)", gl.loc())
+    lk = [l for l in ast.walk(gl.node) if isinstance(l, ast.For) and ast.unparse(l.iter) == "reversed(self.debug_info)" and isinstance(l.target, ast.Tuple) and len(l.target.elts) == 2]
+    lk_ok = False
+    if len(lk) == 1:
+        tl, cl = (ast.unparse(e_) for e_ in lk[0].target.elts)
+        hits = [r_ for r_ in astq.returns(lk[0]) if r_.value is not None and ast.unparse(r_.value) == tl]
+        # `code_line <= lineno`, written either way round
+        lk_ok = len(hits) == 1 and any(astq.linear_cmp(ast.parse(g, mode="eval").body) in (({cl: 1, "lineno": -1}, "<="), ({"lineno": 1, cl: -1}, ">=")) and pol for g, pol in astq.guard_atoms(lk[0], hits[0]))
+    ctx.check(lk_ok and astq.returns(gl.node)[-1].value is not None and ast.unparse(astq.returns(gl.node)[-1].value) == "1", "reader:lookup", "environment:Template.get_corresponding_lineno", "lookup", "the template line is that of the last entry whose generated line is <= the failing line (default 1)", gl.loc())
     fn = repo.func("environment:Template._from_namespace")
-    ctx.check("t._debug_info = namespace['debug_info']" in ast.unparse(fn.node), "reader:source", "environment:Template._from_namespace", "debug_info taken from the module", "the template must read debug_info from its generated module", fn.loc())
+    ctx.check(any(isinstance(a, ast.Assign) and isinstance(a.targets[0], ast.Attribute) and a.targets[0].attr == "_debug_info" and ast.unparse(a.value) == "namespace['debug_info']" for a in ast.walk(fn.node)), "reader:source", "environment:Template._from_namespace", "debug_info taken from the module", "the template must read debug_info from its generated module", fn.loc())
     rt = repo.func("debug:rewrite_traceback_stack")
     s = ast.unparse(rt.node)
     ctx.check("template.get_corresponding_lineno(tb.tb_lineno)" in s and "fake_traceback(exc_value, tb, template.filename, lineno)" in s and "tb.tb_frame.f_globals.get('__jinja_template__')" in s, "traceback:mapping", "debug:rewrite_traceback_stack", "frame mapping", "template frames must be replaced by frames at get_corresponding_lineno(tb_lineno) in template.filename", rt.loc())
@@ -60,7 +67,7 @@ def check(ctx: Ctx) -> str:
     ex = repo.func("lexer:TokenStream.expect")
     ctx.check(ast.unparse(ex.node).count("self.current.lineno") == 2, "TokenStream.expect", "lexer:TokenStream.expect", "error line", "TokenStream.expect must report the current token's line", ex.loc())
     cl = repo.func("lexer:TokenStream.close")
-    ctx.check("Token(self.current.lineno, TOKEN_EOF, '')" in ast.unparse(cl.node), "TokenStream.close", "lexer:TokenStream.close", "eof line", "the EOF token must carry the last line", cl.loc())
+    ctx.check("Token(self.current.lineno, TOKEN_EOF, '')" in cl.ntext, "TokenStream.close", "lexer:TokenStream.close", "eof line", "the EOF token must carry the last line", cl.loc())
     token_line_rules(ctx, "R3")
 
     ctx.rule("R5", "traceback rewriting: frames of @internalcode functions are dropped *before* a frame is looked at as a template frame (the generated module defines @internalcode stubs, e.g. for unknown filters - their frames carry __jinja_template__ too and sit on the def line); template frames are replaced by a fake frame at get_corresponding_lineno(tb.tb_lineno)")
